@@ -147,6 +147,8 @@ def div(a, b):
         q = abs(a.val) // abs(b.val)
         return const(q if (a.val >= 0) == (b.val >= 0) else -q, "Int")
     if b.is_const and b.val == 1: return a
+    if b.is_const and a.op == "ite" and _leaves_const(a):        # finite-domain integers: push through the ite tree
+        return ite(a.args[0], div(a.args[1], b), div(a.args[2], b))
     return T("idiv", (a, b), "Int")
 
 
@@ -273,6 +275,8 @@ def imod(a, b):
     """lax.rem on integers (sign of dividend)."""
     if a.is_const and b.is_const:
         return const(int(math.fmod(a.val, b.val)), "Int")
+    if b.is_const and a.op == "ite" and _leaves_const(a):
+        return ite(a.args[0], imod(a.args[1], b), imod(a.args[2], b))
     return T("mod", (a, b), "Int")
 
 
